@@ -253,6 +253,15 @@ pub fn run(cfg: &J) -> J {
             }
         }
     }
+    // string and character escapes for every value up to U+017F (one-byte values are where "byte" and "character" can be
+    // confused), alone and next to multi-byte text, in every string / character syntax
+    for cp in 0x20u32..0x180 {
+        for t in [format!("\"\\x{:x};\"", cp), format!("\"\u{3bb}\\x{:x};\u{e9}\"", cp), format!("(a \"\\x{:X};\" \u{3bb})", cp), format!("\"\\x{:x}\\ \u{3bb}\"", cp),
+                  format!("\"\\{:o}\u{3bb}\"", cp), format!("#\\x{:x}", cp), format!("?\\x{:x}", cp), format!("?\\{:o}", cp), format!("\"\\u{:04x}\"", cp)] {
+            r.text(t.as_bytes(), &dpo, None, false);
+            r.text(t.as_bytes(), &epo, None, false);
+        }
+    }
     // output side
     let pos = all_print_opts();
     let mut g = crate::gen::Gen::new(cfg["seed"].as_u64().unwrap_or(1) + 11);
